@@ -31,7 +31,11 @@ func (t *FnTrans) Finish() {
 	for _, o := range t.obls {
 		g, err := t.Formula(o.F, true)
 		if err != nil {
-			t.contractErrors = append(t.contractErrors, err.Error())
+			if strings.Contains(err.Error(), "stale identifier") {
+				t.staleClauses = append(t.staleClauses, o.Name+": "+err.Error())
+			} else {
+				t.contractErrors = append(t.contractErrors, err.Error())
+			}
 			g = "true"
 			o.Broken = true
 		}
@@ -48,7 +52,11 @@ func (t *FnTrans) Finish() {
 			term, err = t.Formula(a.F, false)
 		}
 		if err != nil {
-			t.contractErrors = append(t.contractErrors, err.Error())
+			if strings.Contains(err.Error(), "stale identifier") {
+				t.staleClauses = append(t.staleClauses, "hypothesis: "+err.Error())
+			} else {
+				t.contractErrors = append(t.contractErrors, err.Error())
+			}
 			term = "true"
 		}
 		t.assumpTerms = append(t.assumpTerms, implies(a.Guard, term))
